@@ -288,6 +288,27 @@ PROPS = {
         "assumptions": ["declared lengths above 1 MiB are not sent to the live process (ReadAll preallocates the declared size)"],
         "timeout": {"quick": 900, "thorough": 3000},
     },
+    "C07": {
+        "title": "Concurrent clients see linearizable, race-free behaviour",
+        "harness": "c07",
+        "model": "Model/Conc.v: every request = Pre (no lock: body read) / Commit (under the backend lock: whole effect + capture of the response) / Post (no lock: streaming) sections over Model/Handlers.v step; schedules = arbitrary interleavings",
+        "rule": "per backend: (a) forced interleavings through gated I/O — a PUT whose body reader blocks (slow uploader) while a GET of the "
+                "same key, a PUT of another key and a listing issued by other clients must complete and see the old object; a GET whose "
+                "ResponseWriter blocks (slow reader) overlapped by an overwrite and by a delete of the key must deliver in full the 50-70 KB "
+                "object it captured; (b) rounds of 2, 4, 6 and 16 simultaneous requests (put with unique bodies, get, head, delete, copy "
+                "over 1..4 keys; memory backend also versioned) — 25 rounds x 2 repetitions per width in the quick tier, 60 x 12 in the "
+                "thorough tier — each accepted iff some sequential order of its requests reproduces every observed response (status, "
+                "body, ETag, Content-Length, version id) on the model; sequential probes between rounds. Watchdogs report hangs. "
+                "distinct_nontrivial = distinct (backend, versioned, round).",
+        "explanation": "Theorems: for every number of clients, every program and EVERY schedule of the section model, the shared state and "
+                       "each client's responses equal those of the sequential execution of the operations in Commit order, which respects "
+                       "program order; Post delivers exactly what Commit captured (no torn reads). Tie: forced interleavings and "
+                       "concurrent rounds on the real handlers, checked for linearizability against the extracted sequential model. "
+                       "PARTIAL: data races inside a section, the Go memory model and sync.RWMutex atomicity are assumed, not modelled; "
+                       "the race detector is not part of the quick tier.",
+        "assumptions": ["requests of one round are treated as mutually concurrent (no finer real-time order is recorded), which can only accept more histories"],
+        "timeout": {"quick": 900, "thorough": 3000},
+    },
 }
 
 # properties whose check is not built yet are listed so the manifest stays honest
